@@ -122,7 +122,7 @@ def aggregate_order(chk, rid):
   for sqlname, cname, node in aggs:
     if cname not in m.classes:
       raise AnalysisError('aggregate class %s not found' % cname)
-    ci = m.classes[cname]
+    ci = repo.flat_class(m, cname)
     fin = ci.methods.get('finalize')
     step = ci.methods.get('step')
     if fin is None or step is None:
@@ -367,7 +367,7 @@ def heap_discipline(chk, rid, module, sqlname, ci):
            'first element is not the extreme one, so which row is evicted '
            'depends on arrival order', fi=step)
   # direction of the eviction test
-  v = FnView(chk.repo, step.fq)
+  v = FnView.of(chk.repo, step)
   for k, f, c in repl:
     if len(f) != 1:
       continue
